@@ -565,6 +565,6 @@ def validate(seed, tier):
 
 MANIFEST_ENTRY = {
     "level_text": "Bounded symbolic execution of the real RegionGeom.mcintegral and RegionGeomToO.mcintegral with every per-event column, threshold, normalisation and mask symbolic (all validity / horizon / volume patterns of N<=3 (quick) or N<=4 (thorough) thrown events); the returned integral, geometry-only integral and passing count are proved equal (nlsat, exact reals) to an independent reference estimator written from the statement, plus permutation invariance, monotonicity in the threshold, the 0.826 bound, /N_thrown, dark-sky cut iff Optical; the wiring of compute() is checked on the real compute() body with recording stage stubs.",
-    "level_note": "REAL arithmetic; bounded N; sun/moon ephemerides stubbed by free Booleans per event time; uncertainty return value not claimed; compute() wiring uses stage stubs (identity of the objects passed), not the numeric stages.",
+    "level_note": "The harness objects carry a configuration whose thrown_events differs from the batch size (the estimator must divide by the number actually thrown); the sequence replay also uses spectrum factors (4, 1/4). REAL arithmetic; bounded N; sun/moon ephemerides stubbed by free Booleans per event time; uncertainty return value not claimed; compute() wiring uses stage stubs (identity of the objects passed), not the numeric stages.",
     "technique": "symbolic execution of the real NumPy source (DFS over mask patterns) + z3 qfnra-nlsat equivalence against a reference estimator",
 }
